@@ -677,7 +677,9 @@ def int_corner(v):
 def gen_stream(rng):
     """(stream kind, buffer size): the plain sim handle, a real io.BytesIO,
     or a real io.BufferedReader over a raw sim stream (drawn buffer size)."""
-    kind = rng.weighted([(6, 'sim'), (2, 'bytesio'), (2, 'buffered')])
+    kind = rng.weighted([(12, 'sim'), (4, 'bytesio'), (4, 'buffered'),
+                         (1, 'minimal'), (1, 'gzip'), (1, 'mmap'),
+                         (1, 'spooled')])
     return kind, (rng.choice([1, 2, 7, 64, 512, 8192])
                   if kind == 'buffered' else None)
 
